@@ -490,9 +490,11 @@ class TaskScenario(ScenarioData):
                                 gap_hours = self._parse_duration(gaplength)
                                 gap_slots = int(gap_hours)  # Each slot is 1 hour
                                 dep_time_idx = self.project.dateToIdx(dep_time)
-                                # Skip gap_slots of working time
+                                # Skip gap_slots of working time; a gap that does not fit the scheduling
+                                # horizon puts the bound behind its end (the task is then unschedulable)
+                                gap_limit = self.project.dateToIdx(self.project["end"])
                                 working_slots = 0
-                                while working_slots < gap_slots:
+                                while working_slots < gap_slots and dep_time_idx <= gap_limit:
                                     if self.isWorkingTime(dep_time_idx):
                                         working_slots += 1
                                     dep_time_idx += 1
